@@ -152,6 +152,7 @@ class Tensor2Field(DataFieldBase):
         return ScalarField(
             self.grid,
             data=self._data_full[self._get_axes_index(key)],
+            dtype=self.dtype,
             with_ghost_cells=True,
         )
 
